@@ -17,7 +17,8 @@ C02_CLAUSES = {'DuctHeatEqualsGapCredit', 'GapConductionOnlyMovesHeat',
                'AssemblyBalance', 'PendingHeatObserved',
                'RegionChangeAfterGap'}
 C03_CLAUSES = {'DeliveredEqualsAssigned', 'DeliveredIsSumOfSteps',
-               'AssemblyTotalsSumToCorePower', 'PowerBookkeeping'}
+               'AssemblyTotalsSumToCorePower', 'PowerBookkeeping',
+               'AssignedEqualsInputIntegral'}
 C04_CLAUSES = {'NoUndershoot', 'NoNewExtremum'}
 COMMON = {'StepOrder', 'LedgerAdvance', 'TotalsAsLogged',
           'SweepEndsAtPlaneBoundary', 'TraceEndsWithFinish',
@@ -41,7 +42,7 @@ def record_case(args):
                     'meta': {'planes': 0}}
         const = all(drive.is_const_material(a.active_region.coolant)
                     for a in r.assemblies)
-        ob = ledger.LedgerObs(r, const)
+        ob = ledger.LedgerObs(r, const, case)
         crashed = None
         try:
             with drive.Recorder(dassh, r, [ob]) as rec:
